@@ -352,3 +352,127 @@ Definition ed25519_priv_parts (derive : bytes -> bytes) (data : bytes) : option 
 (* Ed25519PrivateKey.Equals: the whole 64 bytes, i.e. both halves *)
 Definition ed25519_priv_equal (a b : bytes * bytes) : bool :=
   bytes_eqb (fst a) (fst b) && bytes_eqb (snd a) (snd b).
+
+(* ---- round 4: the peerstores' signed-record path ------------------------------------------------
+   ConsumeEnvelope(bytes, PeerRecordEnvelopeDomain) -> AddrBook.ConsumePeerRecord(envelope) ->
+   AddrBook.GetPeerRecord(p), for pstoremem and pstoreds (p2p/host/peerstore/*/addr_book.go).
+
+   pstoreds keeps, per peer, an AddrBookRecord in the datastore whose CertifiedRecord is
+   { Seq; Raw = Envelope.Marshal() } and (with CacheSize > 0) a cache of loaded records in front
+   of it.  GetPeerRecord loads the record (cache first) and hands out
+   ConsumeEnvelope(Raw, PeerRecordEnvelopeDomain): the stored bytes are validated AGAIN on every
+   read, so whatever sits in the datastore - edited between write and read, found after a restart -
+   is handed out only if it is a sealed envelope.  pstoremem keeps the consumed envelope itself;
+   nothing can edit it, which is the same book without [ps_edit] steps.
+
+   Not modelled: addresses and their expiry (every record of a history carries at least one
+   address and nothing expires: GetPeerRecord's "no addresses" exit is not taken), cache
+   eviction, the cached EMPTY record of a peer never written (a datastore entry is only ever
+   edited where one exists, so an empty cached record never hides one), pstoremem's
+   maxSignedPeerRecords. *)
+
+(* peer/pb PeerRecord { bytes peer_id = 1; uint64 seq = 2; repeated AddressInfo addresses = 3 } *)
+Definition record_seq (payload : bytes) : N :=
+  match pb_fields payload with
+  | Some fs => match last_varint 2 fs None with Some v => v mod 2 ^ 64 | None => 0 end
+  | None => 0
+  end.
+
+Definition ps_entry := (N * bytes)%type.                 (* CertifiedRecord: Seq, Raw *)
+Definition ps_store := list (bytes * ps_entry).          (* peer ID -> entry; the first match counts *)
+Record book := mkBook { b_cached : bool; b_ds : ps_store; b_cache : ps_store }.
+
+Fixpoint st_get (p : bytes) (s : ps_store) : option ps_entry :=
+  match s with
+  | [] => None
+  | (q, v) :: r => if bytes_eqb q p then Some v else st_get p r
+  end.
+
+(* loadRecord: the cache first; a record read from the datastore enters the cache *)
+Definition ps_load (p : bytes) (b : book) : option ps_entry * book :=
+  if b_cached b then
+    match st_get p (b_cache b) with
+    | Some v => (Some v, b)
+    | None =>
+        match st_get p (b_ds b) with
+        | Some v => (Some v, mkBook true (b_ds b) ((p, v) :: b_cache b))
+        | None => (None, b)
+        end
+    end
+  else (st_get p (b_ds b), b).
+
+(* flush of a record held in the cache: written through *)
+Definition ps_write (p : bytes) (v : ps_entry) (b : book) : book :=
+  mkBook (b_cached b) ((p, v) :: b_ds b) (if b_cached b then (p, v) :: b_cache b else b_cache b).
+
+(* somebody else writes the datastore entry's envelope bytes (only where an entry exists) *)
+Definition ps_edit (p raw : bytes) (b : book) : book :=
+  match st_get p (b_ds b) with
+  | Some (sq, _) => mkBook (b_cached b) ((p, (sq, raw)) :: b_ds b) (b_cache b)
+  | None => b
+  end.
+
+(* restart: a new address book over the same datastore *)
+Definition ps_reopen (b : book) : book := mkBook (b_cached b) (b_ds b) [].
+
+Section Peerstore.
+  Variable K : Type.
+  Variable key_dec : N -> bytes -> option K.
+  Variable verify : K -> bytes -> bytes -> bool.
+  Variable id_of : K -> bytes.
+  Variable key_proto : K -> N * bytes.       (* PublicKeyToProto of a decoded key: Type, Raw() *)
+  Variable prdom : bytes.                    (* peer.PeerRecordEnvelopeDomain *)
+  Variable prcodec : bytes.                  (* peer.PeerRecordEnvelopePayloadType *)
+
+  (* the payload as a PeerRecord: (peer ID, seq) *)
+  Definition rec_dec (pt pl : bytes) : option (bytes * N) :=
+    if bytes_eqb pt prcodec then
+      match record_peer_id pl with
+      | Some rid => Some (rid, record_seq pl)
+      | None => None
+      end
+    else None.
+
+  (* GetPeerRecord *)
+  Definition ps_get (p : bytes) (b : book) : option (K * bytes * bytes) * book :=
+    let '(cur, b1) := ps_load p b in
+    (match cur with
+     | Some (_, raw) =>
+         match consume K key_dec verify raw prdom with
+         | CAccept k pt pl => match rec_dec pt pl with Some _ => Some (k, pt, pl) | None => None end
+         | _ => None
+         end
+     | None => None
+     end, b1).
+
+  (* latestPeerRecordSeq *)
+  Definition ps_latest (cur : option ps_entry) : N :=
+    match cur with
+    | Some (sq, _ :: _) => sq
+    | _ => 0
+    end.
+
+  (* ConsumeEnvelope(env, PeerRecordEnvelopeDomain), then ConsumePeerRecord on what it returned:
+     (envelope verdict, peerstore verdict 0 not attempted / 1 stored / 2 the record's ID is not the
+     signer's / 3 older than the stored one, the record's peer ID) *)
+  Definition ps_consume (env : bytes) (b : book) : (consume_result K * N * bytes) * book :=
+    match unmarshal_envelope K key_dec env with
+    | Some (k, e) =>
+        if verify k (make_unsigned prdom (e_pt e) (e_pl e)) (e_sg e) then
+          let r := CAccept k (e_pt e) (e_pl e) in
+          match rec_dec (e_pt e) (e_pl e) with
+          | Some (rid, sq) =>
+              if bytes_eqb rid (id_of k) then
+                let '(cur, b1) := ps_load rid b in
+                if sq <? ps_latest cur then ((r, 3, rid), b1)
+                else
+                  let '(kt, kd) := key_proto k in
+                  ((r, 1, rid),
+                   ps_write rid (sq, marshal_envelope (mkEnv kt kd (e_pt e) (e_pl e) (e_sg e))) b1)
+              else ((r, 2, rid), b)
+          | None => ((r, 0, []), b)
+          end
+        else ((CBadSignature, 0, []), b)
+    | None => ((CBadEnvelope, 0, []), b)
+    end.
+End Peerstore.
